@@ -333,6 +333,20 @@ pub struct MacroIter<R: Reader> {
 impl<R: Reader> MacroIter<R> {
     /// Advance the iterator to the next entry in the `.debug_macro` section.
     pub fn next(&mut self) -> Result<Option<MacroEntry<R>>> {
+        if self.input.is_empty() {
+            return Ok(None);
+        }
+        match self.parse_next() {
+            Ok(entry) => Ok(entry),
+            Err(e) => {
+                // Iteration cannot continue after an error.
+                self.input.empty();
+                Err(e)
+            }
+        }
+    }
+
+    fn parse_next(&mut self) -> Result<Option<MacroEntry<R>>> {
         // DW_MACINFO_* and DW_MACRO_* have the same values, so we can use the same parsing logic.
         let macro_type = DwMacro(self.input.read_u8()?);
         match macro_type {
